@@ -162,10 +162,7 @@ func (e *Engine) vcall(fn *ssa.Function, s *St, in *ssa.Call, ip int, short stri
 			}
 			return set(IntV{IB(n)})
 		}
-		v := Var(tag(), 'I')
-		r := And(Le(I(0), v), Lt(v, IB(new(big.Int).Lsh(big.NewInt(1), bits))))
-		e.ranges = append(e.ranges, r)
-		e.solver.assertBase(r)
+		v := VarR(tag(), big.NewInt(0), new(big.Int).Sub(new(big.Int).Lsh(big.NewInt(1), bits), big.NewInt(1)))
 		return set(IntV{v})
 	case "vParam":
 		i := cInt(args[0])
@@ -400,7 +397,7 @@ func (e *Engine) vcall(fn *ssa.Function, s *St, in *ssa.Call, ip int, short stri
 			return set(UnitV{})
 		}
 		t0 := nowMs()
-		r, m := e.solver.checkX(append(append([]*T(nil), e.ranges...), s.pc), e.allVars(), true)
+		r, m := e.solver.checkX(s.pc, nil, e.allVars(), true)
 		e.stats.queries++
 		ob.Paths++
 		ob.Ms += nowMs() - t0
@@ -436,7 +433,7 @@ func (e *Engine) vcall(fn *ssa.Function, s *St, in *ssa.Call, ip int, short stri
 		}
 		ob := e.obligation(id, kind)
 		t0 := nowMs()
-		r, m := e.solver.checkX(append(append([]*T(nil), e.ranges...), s.pc, Not(c)), e.allVars(), true)
+		r, m := e.solver.checkX(s.pc, []*T{Not(c)}, e.allVars(), true)
 		e.stats.queries++
 		ob.Paths++
 		ob.Ms += nowMs() - t0
@@ -464,33 +461,76 @@ func (e *Engine) vcall(fn *ssa.Function, s *St, in *ssa.Call, ip int, short stri
 		return e.invoke(s, in, ip, short, cStr(args[0]), cStr(args[1]), e.listArgs(s.State, args[2]))
 	case "vEvents":
 		c, name := cStr(args[0]), cStr(args[1])
-		var items []Value
 		if e.model != nil {
+			var items []Value
 			for _, ev := range e.world.events(c, name) {
 				items = append(items, e.allocLits(s.State, ev))
 			}
-		} else {
-			idx := e.index(c)
-			var rev []Value
-			for n := s.notifs; n != nil; n = n.prev {
-				if n.n.contract == idx && n.n.name == name {
-					rev = append(rev, ListV{e.alloc(s.State, ArrObj{append([]Value(nil), n.n.args...)})})
-				}
-			}
-			for i := len(rev) - 1; i >= 0; i-- {
-				items = append(items, rev[i])
+			return set(ListV{e.alloc(s.State, ArrObj{items})})
+		}
+		idx := e.index(c)
+		var evs []*notifNode
+		for n := s.notifs; n != nil; n = n.prev {
+			if n.n.contract == idx && n.n.name == name {
+				evs = append(evs, n)
 			}
 		}
-		return set(ListV{e.alloc(s.State, ArrObj{items})})
+		// events guarded by path conditions of merged paths: fork on which of them happened
+		type part struct {
+			cond *T
+			sel  []*notifNode
+		}
+		parts := []part{{tTrue, nil}}
+		for i := len(evs) - 1; i >= 0; i-- {
+			n := evs[i]
+			var np []part
+			for _, p := range parts {
+				g := n.g()
+				if g.isC() {
+					if g.b {
+						np = append(np, part{p.cond, append(append([]*notifNode(nil), p.sel...), n)})
+					} else {
+						np = append(np, p)
+					}
+					continue
+				}
+				if c1 := And(p.cond, g); e.feasible(s.State, c1) {
+					np = append(np, part{c1, append(append([]*notifNode(nil), p.sel...), n)})
+				}
+				if c2 := And(p.cond, Not(g)); e.feasible(s.State, c2) {
+					np = append(np, part{c2, p.sel})
+				}
+			}
+			parts = np
+		}
+		if len(parts) > 1 {
+			e.stats.forks++
+		}
+		for i, p := range parts {
+			st := s
+			if i < len(parts)-1 {
+				st = &St{State: s.fork(p.cond), blk: s.blk, env: cloneEnv(s.env)}
+			} else {
+				s.State.pc = And(s.pc, p.cond)
+			}
+			var items []Value
+			for _, n := range p.sel {
+				items = append(items, ListV{e.alloc(st.State, ArrObj{append([]Value(nil), n.n.args...)})})
+			}
+			st.env[in] = ListV{e.alloc(st.State, ArrObj{items})}
+			st.ip = ip + 1
+			next = append(next, succ{st, nil})
+		}
+		return next, nil, false
 	case "vEventCount":
 		if e.model != nil {
 			return set(IntV{I(int64(e.world.eventCount()))})
 		}
-		n := 0
-		if s.notifs != nil {
-			n = s.notifs.cnt
+		cnt := I(0)
+		for n := s.notifs; n != nil; n = n.prev {
+			cnt = Add(cnt, Ite(n.g(), I(1), I(0)))
 		}
-		return set(IntV{I(int64(n))})
+		return set(IntV{cnt})
 	case "vEffects":
 		if e.model != nil {
 			return set(BoolV{B(e.world.effects())})
@@ -703,13 +743,13 @@ func showArgs(a []any) string {
 // txEffects: did the last transaction change anything observable (storage contents, GAS ledger, notifications)?
 func (e *Engine) txEffects(s *St) *T {
 	r := tFalse
-	if s.notifs != nil {
-		return tTrue
+	for n := s.notifs; n != nil; n = n.prev {
+		r = Or(r, n.g())
 	}
 	// storage: every entry appended since the start of the transaction, compared with the value before
 	for n := s.store; n != nil && n != s.txStore0; n = n.prev {
 		old := e.lookupAt(s.txStore0, n.key)
-		r = Or(r, Not(valEqOpt(n.val, old)))
+		r = Or(r, And(n.g(), Not(valEqOpt(n.val, old))))
 	}
 	for k, v := range s.gas {
 		o, ok := s.txGas0[k]
@@ -731,7 +771,7 @@ func (e *Engine) lookupAt(st *storeNode, key []*T) []optVal {
 	var out []optVal
 	none := tTrue
 	for n := st; n != nil; n = n.prev {
-		eq := bytesEq(n.key, key)
+		eq := And(n.g(), bytesEq(n.key, key))
 		if eq.isC() && !eq.b {
 			continue
 		}
